@@ -67,11 +67,17 @@ class Gen:
                     self.tree.append(')')
                     out.append('{ ' + ' '.join(body) + ' }')
                 else:
-                    x = self.pick(); d = self.decl_id()
-                    self.tree.append('('); self.tree.append('d%d,%d' % (x, d)); self.tree.append('(')
+                    # one to three range-for loops nested directly in each other (no braces between them), then a block
+                    heads = []
+                    for _ in range(self.rng.choice([1, 1, 2, 3])):
+                        x = self.pick(); d = self.decl_id()
+                        self.tree.append('('); self.tree.append('d%d,%d' % (x, d))
+                        heads.append('for (%s : %s)' % (NAMES[x], self.ty(d)))
+                    self.tree.append('(')
                     body = self.block_items(depth + 1, kind, fname)
-                    self.tree.append(')'); self.tree.append(')')
-                    out.append('for (%s : %s) { %s }' % (NAMES[x], self.ty(d), ' '.join(body)))
+                    self.tree.append(')')
+                    for _ in heads: self.tree.append(')')
+                    out.append('%s { %s }' % (' '.join(heads), ' '.join(body)))
         return out
 
     def function(self, kind):
